@@ -267,6 +267,7 @@ class Interp:
         self.max_depth = max_depth
         self.depth = 0
         self.steps = 0
+        self.deepest = 0            # deepest nesting of calls of analysed functions seen so far
         self.native = dict(native or {})  # qualname -> python callable overriding a callee
         self._default_natives()
         # module-level values live as long as the process: shared by all evaluators (reset_global_state)
@@ -551,6 +552,8 @@ class Interp:
             self.steps = 0
             Interp.TOP_CALLS += 1
         self.depth += 1
+        if self.depth > self.deepest:
+            self.deepest = self.depth
         if self.depth > self.max_depth:
             self.depth -= 1
             raise AnalysisError("ABSINT", f"inlining bound {self.max_depth} exceeded at {fi.qual}")
@@ -604,6 +607,8 @@ class Interp:
         e2[f.node.name] = f
         e2.update(self._bind_local(a, f.node.name, f.defaults, args, kwargs))
         self.depth += 1
+        if self.depth > self.deepest:
+            self.deepest = self.depth
         if self.depth > self.max_depth:
             self.depth -= 1
             raise AnalysisError("ABSINT", f"inlining bound {self.max_depth} exceeded at local {f.node.name}")
